@@ -314,6 +314,12 @@ impl Reader {
 					)));
 				}
 
+				// Metadata records are checksummed like data records
+				let meta_data = &self.buffer[self.buffer_offset..self.buffer_offset + length as usize];
+				if calculate_crc32(&[type_byte], meta_data) != crc {
+					return Err(Error::IO(IOError::new(io::ErrorKind::Other, "checksum mismatch")));
+				}
+
 				// Parse and store compression type
 				if length > 0 {
 					let compression_byte = self.buffer[self.buffer_offset];
